@@ -59,11 +59,11 @@ func vpC07GenSizes(t *rapid.T, maxTotal int) []int {
 }
 
 type vpC07World struct {
-	m      *vpMesh
-	log    *vpTapLog
-	echo   *harn.Listener
-	ftDir  string
-	a, x   *Agent
+	m       *vpMesh
+	log     *vpTapLog
+	echo    *harn.Listener
+	ftDir   string
+	a, x    *Agent
 	transit bool
 }
 
